@@ -289,7 +289,9 @@ impl Monitor {
                             m.os_armed = true;
                             if self.in_disp {
                                 m.rearmed_in_disp = true;
-                                if m.owed && m.called == 0 {
+                                // an event collected by this dispatch's poll (also a bare HUP/ERR report,
+                                // which is never "owed") may still be delivered after this re-arming
+                                if m.called == 0 {
                                     m.stale_event_possible = true;
                                 }
                             }
